@@ -389,6 +389,8 @@ func (n *Client) postWrapper(ctx context.Context, json []byte, dataType string) 
 			"Content-Type": "application/json",
 			"User-Agent":   n.userAgent,
 		}
+		// this function runs once per attempt: the payload must be compressed from the original each time
+		payload := json
 
 		// Insights Event API requires gzip or deflate compression
 		// https://docs.newrelic.com/docs/insights/insights-data-sources/custom-data/introduction-event-api#h2-basic-workflow
@@ -402,7 +404,7 @@ func (n *Client) postWrapper(ctx context.Context, json []byte, dataType string) 
 			// compress json
 			var buf bytes.Buffer
 			zw := gzip.NewWriter(&buf)
-			_, err := zw.Write([]byte(json))
+			_, err := zw.Write([]byte(payload))
 			if err != nil {
 				return err
 			}
@@ -411,7 +413,7 @@ func (n *Client) postWrapper(ctx context.Context, json []byte, dataType string) 
 			if err := zw.Close(); err != nil {
 				return err
 			}
-			json = buf.Bytes()
+			payload = buf.Bytes()
 		}
 
 		address := n.address
@@ -419,7 +421,7 @@ func (n *Client) postWrapper(ctx context.Context, json []byte, dataType string) 
 			address = n.addressMetrics
 		}
 
-		req, err := http.NewRequest("POST", address, bytes.NewBuffer(json))
+		req, err := http.NewRequest("POST", address, bytes.NewBuffer(payload))
 		if err != nil {
 			return fmt.Errorf("unable to create http.Request: %v", err)
 		}
